@@ -297,7 +297,7 @@ def run(tier):
         "samples": vlib.trim_samples(tt["samples"] + rr["samples"], 3),
         "model": {"scaled_down_instances": [m.cmd.split("-config ")[1].split()[0].split("/")[-1] for m in ms],
                   "distinct_states": [m.distinct for m in ms],
-                  "constants": "quick: EB=8,CB=1,WB=3; thorough adds EB=10,CB=2,WB=4; 5 checksum functions; every entropy, "
+                  "constants": "EB=8,CB=1,WB=3 with 5 checksum functions; thorough adds EB=10,CB=2,WB=4 with 3; every entropy, "
                                "every token sequence of length NW-1..NW+1 over the vocabulary plus an unknown token"},
         "replay": {k: rr[k] for k in ("states", "edges", "calls", "paths", "covered", "steps", "full")},
         "trace_validation": {"groups": tt["groups"], "events": tt["events"], "rejected": tt["rejected"],
